@@ -51,6 +51,14 @@ def err(msg):
     sys.__stderr__.flush()
 
 
+class _WriteOnly:
+    """A stand-in for sys.stdout / sys.stderr that has write() and nothing else."""
+    __slots__ = ()
+
+    def write(self, text):
+        return len(text)
+
+
 def safe_execute(mod, case):
     """mod.execute(case); an exception that escapes from the system under test
     (innermost frame inside the pydsol sources) is a violation of totality /
@@ -65,10 +73,21 @@ def safe_execute(mod, case):
     if werr:
         # configuration knob: the process treats warnings as errors (-W error)
         warnings.simplefilter("error")
+    outmode = case.get("_stdout") if isinstance(case, dict) else None
+    saved_out = (sys.stdout, sys.stderr)
+    if outmode == "none":
+        # configuration knob: a process without standard streams (pythonw, a service):
+        # print() and traceback printing are silent no-ops there
+        sys.stdout = sys.stderr = None
+    elif outmode == "writeonly":
+        # ... or with a minimal redirect object that only implements write()
+        sys.stdout = sys.stderr = _WriteOnly()
     try:
         try:
             return mod.execute(case)
         finally:
+            if outmode is not None:
+                sys.stdout, sys.stderr = saved_out
             if werr:
                 warnings.filters[:] = saved_filters
             if lvl is not None:
@@ -113,6 +132,10 @@ class _RunOne:
             # ... and warnings treated as errors in 5 %
             case["_warnings"] = "error"
             agg.count("fault:warnings_as_errors(runs)")
+        if isinstance(case, dict) and seed % 25 == 11 and not case.get("skip"):
+            # ... and no usable standard streams in 4 %
+            case["_stdout"] = "none" if seed % 50 == 11 else "writeonly"
+            agg.count("fault:no_standard_streams(runs)")
         res = safe_execute(mod, case)
         if res.get("fail_case") is not None:
             knobs = {k: v for k, v in case.items() if k.startswith("_")} \
